@@ -116,3 +116,27 @@ PROPS['C06'] = dict(
     assumptions=[],
     explanation="",
 )
+
+from contracts import plugins
+PROPS['C18'] = dict(
+    units=list(plugins.UNITS_C18) + [plugins.Parse, _s.SrcToJSON, _s.GetCallouts],
+    level='proof',
+    min_obligations=20,
+    assumptions=[],
+    explanation="",
+)
+PROPS['C04'] = dict(
+    units=list(plugins.UNITS_C04) + [plugins.ParseCustom, pelcore.DefaultSec],
+    level='proof',
+    min_obligations=20,
+    assumptions=[],
+    explanation="",
+)
+
+PROPS['C19'] = dict(
+    units=list(plugins.UNITS_C19) + [_s.SrcToJSON, _h.LP, _h.DisplayCompID, pelcore.ParsePELAny],
+    level='proof',
+    min_obligations=100,
+    assumptions=[],
+    explanation="",
+)
